@@ -114,6 +114,22 @@ func (p *regExpParser) scanGroup() {
 
 // [...].
 func (p *regExpParser) scanBracket() {
+	// [] matches nothing and [^] matches any character; re2 has no empty class.
+	if p.chr == ']' {
+		if _, err := p.goRegexp.WriteString(`^\x00-\x{10FFFF}]`); err != nil {
+			p.errors = append(p.errors, err)
+		}
+		p.read()
+		return
+	}
+	if p.chr == '^' && p.offset < p.length && p.str[p.offset] == ']' {
+		if _, err := p.goRegexp.WriteString(`\x00-\x{10FFFF}]`); err != nil {
+			p.errors = append(p.errors, err)
+		}
+		p.read()
+		p.read()
+		return
+	}
 	for p.chr != -1 {
 		if p.chr == ']' {
 			break
